@@ -25,6 +25,7 @@ typedef struct {
   int  status_unspecified; /* final status not pinned by the statement for this case */
 } sm_model_t;
 static sm_model_t sm;
+static int        sm_cached_a = -1; /* candidate whose (negative) A answer an earlier request has put in the query cache */
 
 /* presentation name -> normalised qname text (same normalisation as sdns_name_to_text, lower) ;
  * returns 0 if not encodable (empty label, label > 63, total > 255) */
@@ -432,6 +433,45 @@ static void gen_search(vh_rng_t *rng)
       /* plain searches treat these as ordinary names */
     }
   }
+  /* An earlier request on the same channel has left the negative A answer of one candidate in the query cache: the
+   * address lookup gets that sub-answer in the middle of sending the candidate's two questions.  Order, stop rule
+   * and status are what they would be without the cache; only that candidate's A question stays off the wire. */
+  sm_cached_a = -1;
+  if (t->kind == RK_GETADDRINFO && t->family == AF_UNSPEC && !sm.zero_questions && sm.nexpected >= 1 && vh_chance(rng, 1, 4) &&
+      strchr(name, '\\') == NULL /* (the cache keys on the name as written: an escaped spelling is another key) */) {
+    int k = (int)vh_below(rng, (uint32_t)sm.nexpected), j, uniq = 1;
+    /* (with the cache on, a candidate that repeats an earlier one - the same domain twice in the list - is answered
+     * from the cache entirely and never shows on the wire: only lists of pairwise different candidates here) */
+    for (j = 0; j < sm.ncand; j++) {
+      int j2;
+      for (j2 = 0; j2 < j; j2++) {
+        if (!sm.encodable[j] || !sm.encodable[j2] || !strcmp(sm.qname[j], sm.qname[j2])) {
+          uniq = 0;
+        }
+      }
+    }
+    if (uniq && sm.encodable[k] && sm.qname[k][0] && strchr(sm.qname[k], '\\') == NULL &&
+        (sm.outcome[k] == SO_NODATA || sm.outcome[k] == SO_NXDOMAIN)) {
+      int ti2 = gen_add_token(rng, 0);
+      if (ti2 > 0) {
+        app_tok_t *p2 = &app_tok[ti2];
+        int        a2;
+        p2->kind   = RK_QUERY;
+        p2->qtype  = 1;
+        p2->qclass = 1;
+        p2->action = RA_NONE;
+        snprintf(p2->name, sizeof(p2->name), "%s.", sm.qname[k]);
+        for (a2 = 0; a2 < app_nact; a2++) {
+          if (app_act[a2].kind == AA_START && app_act[a2].tok == 0) {
+            app_act[a2].t = 80000; /* the address lookup starts once that answer is in */
+          }
+        }
+        app_cfg.qcache_max_ttl = 3600;
+        sm_cached_a            = k;
+        sim_note("search_candidate_a_answer_cached_by_earlier_request");
+      }
+    }
+  }
 }
 
 static void mon_search(void)
@@ -451,7 +491,7 @@ static void mon_search(void)
      * it has the same wire name, e.g. "name" and "name." via the root search domain) */
     uint16_t gid[3] = { 0, 0, 0 };
     int      ghave[3] = { 0, 0, 0 };
-    for (i = 0; i < sim_ntx && nseen < 64; i++) {
+    for (i = t->tx_at_start; i < sim_ntx && nseen < 64; i++) {
       int slot = sim_tx[i].qtype == 1 ? 0 : sim_tx[i].qtype == 28 ? 1 : 2;
       int bit  = 1 << slot;
       if (!sim_tx[i].wellformed) {
@@ -533,6 +573,9 @@ static void mon_search(void)
       int want = t->family == AF_INET ? 1 : t->family == AF_INET6 ? 2 : 3;
       if (t->kind == RK_GETHOSTBYNAME && t->family == AF_UNSPEC) {
         want = seen_types[i]; /* documented: gethostbyname(AF_UNSPEC) tries AAAA then A: not modelled here */
+      }
+      if (i == sm_cached_a) {
+        want &= ~1; /* its A answer comes from the cache */
       }
       if (seen_types[i] != want) {
         vh_violation("search:addr-qtypes", "'%s' candidate '%s': asked type set %d, model %d", t->name, seen[i], seen_types[i], want);
